@@ -146,7 +146,7 @@ fn build(rng: &mut Rng) -> Built {
     }
     let mut lef = LefLibrary::new();
     if rng.bool() {
-        lef.units = Some(LefUnits { database_microns: Some(LefDbuPerMicron(*rng.pick(&[100u32, 1000, 2000, 10_000]))), ..Default::default() });
+        lef.units = Some(LefUnits { database_microns: Some(LefDbuPerMicron(*rng.pick(&[100u32, 200, 400, 800, 1000, 2000, 4000, 8000, 10_000, 20_000]))), ..Default::default() });
     }
     let mut want = Vec::new();
     for mi in 0..1 + rng.usize(3) {
